@@ -665,7 +665,45 @@ def slot_use_after_release(P, R, rule='C08.UAF.2'):
     R.floor(rule, 1, 'calls that may free a service record')
 
 
+def kept_names_are_owned(P, R, rule='C08.OWN.1'):
+    """A module constructor may keep the name it is handed (iauth_class files it as the owner of its plug-in record, and
+    the info replies read it on every `?` line for the rest of the run).  The texts of the configured module list do not
+    live that long - a reload with a different list frees them - so what the loader hands to a constructor is the copy
+    the module record itself owns (or the constructor copies what it keeps)."""
+    keepers = []
+    for k, g in sorted(P.fns.items()):
+        if g.name != 'module_constructor' or not g.params:
+            continue
+        for s in g.stores():
+            ev = s.ev
+            if ev['k'] == 'store' and ev.get('op') == '=' and is_var(ev.get('rhs'), g.params[0]):
+                rv = root_var(ev['lhs'])
+                if rv is not None and rv.get('sc') not in ('local', 'param'):
+                    keepers.append(s)
+    ld = P.need_fn('module_load')
+    ctor = None
+    for s in ld.calls('dlsym'):
+        a = s.ev['args']
+        if len(a) > 1 and a[1].get('k') == 'str' and a[1].get('v') == 'module_constructor':
+            ctor = s
+    if ctor is None:
+        raise AnalysisBroken('module_load does not look up module_constructor')
+    calls = [s for s in ld.sites() if s.ev['k'] == 'call' and not s.ev.get('callee') and s.ev.get('fexpr') is not None and len(s.ev.get('args') or ()) == 1]
+    if not calls:
+        raise AnalysisBroken('module_load does not call the constructor it looked up')
+    for c in calls:
+        a = c.ev['args'][0]
+        owned = isinstance(a, dict) and a.get('k') == 'mem' and a.get('rec') == 'module'
+        if not owned and is_var(a) and a.get('sc') == 'local':
+            sd = ld.single_def(a['name'])
+            owned = bool(sd) and isinstance(sd[1], dict) and sd[1].get('k') == 'mem' and sd[1].get('rec') == 'module'
+        R.ob(rule, owned or not keepers, c, 'the name handed to a module constructor is the module record\'s own copy (%s)' % (
+            'no constructor keeps it' if not keepers else 'kept by %s' % ', '.join(sorted({P.relloc(k_.loc) for k_ in keepers}))), key='ctor-name-owned', nontrivial=bool(keepers))
+    R.floor(rule, 1, 'constructor calls of the module loader')
+
+
 def run(P, R, tier):
+    kept_names_are_owned(P, R)
     input_buffer(P, R)
     nullarg(P, R)
     tokenizer(P, R)
